@@ -229,7 +229,7 @@ class NotificationCenter(object):
                             if holdKey in self._holds:
                                 hold = True
                                 n = (notification, observableRef, data)
-                                if n not in self._holds[key]["notifications"]:
+                                if n not in self._holds[holdKey]["notifications"]:
                                     self._holds[holdKey]["notifications"].append(n)
                                 break
                     if hold:
